@@ -40,13 +40,7 @@ func (o *Obs) emitInitAndWS(s *hx.Session, res *Result, initial bool) {
 	ws := res.WriteSet
 	// --- initial state
 	byStore := map[string][]common.VerifNode{}
-	var stores []string
-	for _, n := range ws {
-		if _, ok := byStore[n.Store]; !ok {
-			stores = append(stores, n.Store)
-		}
-		byStore[n.Store] = append(byStore[n.Store], n)
-	}
+	var stores []string // in the order the transaction opened them (= the order every per-store loop of the commit uses)
 	for _, d := range res.Deltas {
 		name := d[0].(string)
 		if _, ok := byStore[name]; !ok {
@@ -54,7 +48,12 @@ func (o *Obs) emitInitAndWS(s *hx.Session, res *Result, initial bool) {
 			stores = append(stores, name)
 		}
 	}
-	sort.Strings(stores)
+	for _, n := range ws {
+		if _, ok := byStore[n.Store]; !ok {
+			stores = append(stores, n.Store)
+		}
+		byStore[n.Store] = append(byStore[n.Store], n)
+	}
 	created := map[string]bool{}
 	if initial {
 		for _, n := range ws {
@@ -132,8 +131,12 @@ func (o *Obs) emitInitAndWS(s *hx.Session, res *Result, initial bool) {
 		if tracked[name] {
 			tr = "1"
 		}
-		s.Op(fmt.Sprintf("store %d created=%s root=%s upd=%s rem=%s add=%s fet=%s items=%d tracked=%s delta=%d",
-			storeIdx(name), cr, join(root), join(upd), join(rem), join(add), join(fet), items, tr, deltas[name]), "ok")
+		var vals []string
+		for _, v := range res.Values[name] {
+			vals = append(vals, c.ID(v))
+		}
+		s.Op(fmt.Sprintf("store %d created=%s root=%s upd=%s rem=%s add=%s fet=%s items=%d tracked=%s delta=%d vals=%s",
+			storeIdx(name), cr, join(root), join(upd), join(rem), join(add), join(fet), items, tr, deltas[name], join(vals)), "ok")
 	}
 }
 
@@ -267,7 +270,7 @@ func (o *Obs) knownIDs(s *hx.Session) []string {
 					continue
 				}
 				switch parts[0] {
-				case "root", "add":
+				case "root", "add", "vals":
 					for _, t := range strings.Split(parts[1], ",") {
 						add(t)
 					}
